@@ -462,6 +462,16 @@ func (n *NN) nonNilAt(v ssa.Value, at *ssa.BasicBlock) (bool, string) {
 				return true, ""
 			}
 		}
+		// slices.Concat(a, b, ...) under a test that len(a)+len(b)+... is not zero
+		if cc, isCC := v.(*ssa.Call); isCC && c.Value != nil && c.Value.Kind() == constant.Int {
+			if nm, _ := calleeFullName(&cc.Call); nm == "slices.Concat" && len(cc.Call.Args) == 1 {
+				if k, _ := constant.Int64Val(c.Value); k == 0 && sumOfLens(bo.X, concatOperands(cc)) {
+					if bo.Op == token.NEQ && onTrue || bo.Op == token.EQL && !onTrue || bo.Op == token.GTR && onTrue || bo.Op == token.LEQ && !onTrue {
+						return true, ""
+					}
+				}
+			}
+		}
 		if call, isCall := bo.X.(*ssa.Call); isCall {
 			if b, isBi := call.Call.Value.(*ssa.Builtin); isBi && b.Name() == "len" && call.Call.Args[0] == v && c.Value != nil && c.Value.Kind() == constant.Int {
 				k, _ := constant.Int64Val(c.Value)
@@ -732,6 +742,25 @@ func (n *NN) callResult(c *ssa.Call, idx int, seen map[ssa.Value]bool) (bool, st
 		return true, ""
 	}
 	name, _ := calleeFullName(&c.Call)
+	if name == "slices.Concat" {
+		// non-nil as soon as one of the slices is non-empty; certainly so when one of them is a non-empty literal
+		if len(c.Call.Args) == 1 {
+			if sl, ok := c.Call.Args[0].(*ssa.Slice); ok {
+				if al, ok := sl.X.(*ssa.Alloc); ok {
+					for _, e := range literalElems(al) {
+						if lit, ok := e.(*ssa.Slice); ok {
+							if la, ok := lit.X.(*ssa.Alloc); ok {
+								if arr, ok := la.Type().(*types.Pointer).Elem().Underlying().(*types.Array); ok && arr.Len() > 0 {
+									return true, ""
+								}
+							}
+						}
+					}
+				}
+			}
+		}
+		return false, "concatenation of slices that may all be empty"
+	}
 	if k, ok := extNonNil[name]; ok {
 		switch {
 		case k == -1:
@@ -833,7 +862,7 @@ func ruleTypedNil(rule string) func(p *Prog, r *Result) {
 							elem = st.Value
 						}
 					case *ssa.Store:
-						if _, isIA := st.Addr.(*ssa.IndexAddr); isIA && isTreeContainer(st.Val.Type()) {
+						if ia, isIA := st.Addr.(*ssa.IndexAddr); isIA && isTreeContainer(st.Val.Type()) && !varargsArray(ia.X) {
 							elem = st.Val
 						}
 					}
@@ -952,6 +981,85 @@ func failureOnly(mi *ssa.MakeInterface) bool {
 				return false
 			}
 		default:
+			return false
+		}
+	}
+	return true
+}
+
+// varargsArray: the array only backs the variadic argument of a call (it is sliced and handed to a callee).
+func varargsArray(v ssa.Value) bool {
+	al, ok := v.(*ssa.Alloc)
+	if !ok || al.Referrers() == nil {
+		return false
+	}
+	used := false
+	for _, ref := range *al.Referrers() {
+		switch r := ref.(type) {
+		case *ssa.IndexAddr, *ssa.DebugRef:
+		case *ssa.Slice:
+			if r.Referrers() == nil {
+				return false
+			}
+			for _, r2 := range *r.Referrers() {
+				if _, isCall := r2.(ssa.CallInstruction); !isCall {
+					return false
+				}
+				used = true
+			}
+		default:
+			return false
+		}
+	}
+	return used
+}
+
+// concatOperands: the slices handed to slices.Concat(a, b, ...).
+func concatOperands(c *ssa.Call) []ssa.Value {
+	sl, ok := c.Call.Args[0].(*ssa.Slice)
+	if !ok {
+		return nil
+	}
+	al, ok := sl.X.(*ssa.Alloc)
+	if !ok {
+		return nil
+	}
+	return literalElems(al)
+}
+
+// sumOfLens: v is len(x1)+len(x2)+... over exactly the given operands (any order).
+func sumOfLens(v ssa.Value, ops []ssa.Value) bool {
+	if len(ops) == 0 {
+		return false
+	}
+	var terms []ssa.Value
+	var walk func(x ssa.Value) bool
+	walk = func(x ssa.Value) bool {
+		if bo, ok := x.(*ssa.BinOp); ok && bo.Op == token.ADD {
+			return walk(bo.X) && walk(bo.Y)
+		}
+		c, ok := x.(*ssa.Call)
+		if !ok {
+			return false
+		}
+		bi, ok := c.Call.Value.(*ssa.Builtin)
+		if !ok || bi.Name() != "len" {
+			return false
+		}
+		terms = append(terms, c.Call.Args[0])
+		return true
+	}
+	if !walk(v) || len(terms) != len(ops) {
+		return false
+	}
+	for _, o := range ops {
+		found := false
+		for _, t := range terms {
+			if t == o {
+				found = true
+			}
+		}
+		if !found {
 			return false
 		}
 	}
